@@ -196,7 +196,7 @@ class ExprGen:
 
     def num_leaf(self):
         s = self.sim
-        opts = [(3, 'field'), (2, 'lit'), (1, 'nested'), (1, 'idx')]
+        opts = [(3, 'field'), (2, 'lit'), (1, 'nested'), (1, 'idx'), (0.7, 'path')]
         nv = [v for v, ty in self.qvars if ty == 'num']
         if nv:
             opts.append((4, 'qvar'))
@@ -224,6 +224,23 @@ class ExprGen:
             else:
                 ix = ('call', s.pick('idxfun', ('abs', 'int', 'floor')), self.ref(NUM_FIELDS))
             return ('idx', self.ref(NUMARR_FIELDS), ix)
+        if c == 'path':
+            # an access path with several steps: grid[i][j], pts[i].ys[j], pts[i].x (arrays of arrays
+            # and arrays of messages, as in trajectory.points[k].positions[j]); an index may be a
+            # constant expression
+            def index():
+                return s.pick('pathidx', (('lit', 'num', '0'), ('lit', 'num', '1'), ('lit', 'num', '2'),
+                                          ('bin', '+', ('lit', 'num', '1'), ('lit', 'num', '1')),
+                                          ('bin', '-', ('lit', 'num', '2'), ('lit', 'num', '1')),
+                                          ('bin', '+', ('lit', 'num', '0'), ('lit', 'num', '1')),
+                                          ('bin', '*', ('lit', 'num', '2'), ('lit', 'num', '1')),
+                                          ('bin', '-', ('lit', 'num', '1'), ('lit', 'num', '1'))))
+            shape = s.choose('pathshape', 3)
+            if shape == 0:
+                return ('idx', ('idx', self.ref(('grid',)), index()), index())
+            if shape == 1:
+                return ('idx', ('dot', ('idx', self.ref(('pts',)), index()), 'ys'), index())
+            return ('dot', ('idx', self.ref(('pts',)), index()), 'x')
         if c == 'const':
             return ('const', s.pick('const', ('PI', 'E')))
         return ('var', s.pick('qvar', nv))
@@ -741,8 +758,14 @@ def term_type(t):
         return None
     if k == 'var':
         return None
+    if k == 'dot' and t[1][0] == 'idx' and t[2] == 'x' and _leaf_name(t[1][1]) == 'pts':
+        return 'num'
     if k == 'idx':
         inner = t[1]
+        if inner[0] == 'idx' and _leaf_name(inner[1]) == 'grid':
+            return 'num'
+        if inner[0] == 'dot' and inner[2] == 'ys' and inner[1][0] == 'idx' and _leaf_name(inner[1][1]) == 'pts':
+            return 'num'
         name = inner[1] if inner[0] == 'field' else inner[2] if inner[0] == 'dot' else None
         if name in NUMARR_FIELDS:
             return 'num'
@@ -860,6 +883,10 @@ def free_refs(t, acc=None):
 FREE_VARS = ('v1', 'v2', 'v3')
 
 
+def _leaf_name(t):
+    return t[1] if t[0] == 'field' else t[2] if t[0] == 'dot' else None
+
+
 def make_message(sim, label='msg'):
     """One message valuation for the fixed schema."""
     m = {}
@@ -874,6 +901,10 @@ def make_message(sim, label='msg'):
     for f in BOOLARR_FIELDS:
         m[f] = sim.pick(label + '.ba', BARR_GRID)
     m['m'] = {'x': sim.pick(label + '.mx', NUM_GRID), 'ok': sim.coin(label + '.mok')}
+    # an array of arrays and an array of messages; all entries distinct, so a swapped index shows
+    base = sim.choose(label + '.gridbase', 5)
+    m['grid'] = tuple(tuple(Fraction(base + 10 * r + c) for c in range(3)) for r in range(3))
+    m['pts'] = tuple({'x': Fraction(base + 100 + i), 'ys': tuple(Fraction(base + 200 + 10 * i + j) for j in range(3))} for i in range(3))
     return m
 
 
